@@ -1,11 +1,24 @@
 import Pyrtma.Proofs.Manager
 import Pyrtma.Proofs.ManagerClose
 import Pyrtma.Proofs.ManagerNotice
+import Pyrtma.Proofs.ManagerSimDrv
 /-!
 # C07 — a departed client leaves no trace
 
-Theorems about `removeModule` (the model of `remove_module`, with the CLIENT_CLOSED forward and everything nested in it)
-and about the paths that lead to it, for every state and every nested forward meeting the forward contract.
+For every history (the refinement link, `Proofs/ManagerSim*.lean`, `Proofs/ManagerSpecDep.lean`):
+`spec_departure_clauses_pass_on_model` — run the model on any well-formed history, give the history-based Spec (`Spec.runSpec`) the events the model itself
+wrote, round by round: the Spec's verdict contains **no C07 entry**.  Every C07 clause of the Spec is covered: the
+clauses of `checkDepartures` in each stretch of events (a connection that had to be dropped is closed; every close has
+a reason — it left, or a write to it failed; a failed write is followed by the close; nothing is closed twice; a
+CLIENT_CLOSED frame is only written about a connection closed in the same stretch; *every* observer — alive, subscribed,
+writable or a logger, not failing — gets *exactly one* notice about each departure: the lower bound is
+`Proofs/ManagerSimDep.lean`, a contract-based induction through the nested `forward` riding on crash-freedom, the upper
+bound is `closed_notice_at_most_once`), "nothing is written to a connection that left on the read side while its
+departure is handled", the reuse clauses of `checkConnect`, and the whole-history clause of `checkC05`
+(`nothing_written_after_failure`).  The stretch of events before the first frame read in a round is judged as
+`Spec.roundBody` says: the accept branch (its INFO log line and whatever that delivery triggers) runs *before* the round's
+poll for writable sockets, so readiness there is what the previous poll left — `exStale` below; when no frame is read the
+stretch also holds the periodic section, which runs after the poll — `exTick`.
 -/
 namespace Pyrtma.C07
 open Pyrtma.Mgr
@@ -191,6 +204,31 @@ theorem default_side_conditions : CfgOK ({} : Cfg) ∧ ({} : Cfg).mtClosed ≠ (
   ⟨⟨by decide, by decide, by decide, fun _ _ h => h⟩, by decide, fun l h => ⟨h, fun _ hx => hx⟩,
    fun l h => ⟨by unfold List.Nodup at h ⊢; rw [List.pairwise_reverse]; exact h.imp (fun hab => hab.symm), fun _ hx => List.mem_reverse.mp hx⟩⟩
 
+/-! ### The Spec's C07 clauses on every run of the model -/
+
+/-- **In every run a failed write is followed at once by the close of the connection** (`Adj`: every `wfail v` event is
+    immediately followed by `close v`). -/
+theorem failed_write_followed_by_close (cfg : Cfg) (ok : CfgOK cfg) (hfuel : cfg.fuel = 0) (hperm : OrdPerm cfg)
+    (rs : List Round) : Adj (run cfg rs).out :=
+  run_adj ok (OrdAll_of_perm hperm) hfuel rs
+
+/-- **In every run nothing is written to a connection after the first failed write to it, or its close** (the
+    whole-history C07 clause of `Spec.checkC05`, verbatim). -/
+theorem nothing_written_after_failure (cfg : Cfg) (ok : CfgOK cfg) (hfuel : cfg.fuel = 0) (hperm : OrdPerm cfg)
+    (rs : List Round) (u : Nat) :
+    (Spec.sends (((run cfg rs).out.dropWhile (fun e => !(e == .wfail u || e == .close u))).drop 1)).any (·.1 == u) = false :=
+  nothing_after_fail (run_J cfg rs) (run_adj ok (OrdAll_of_perm hperm) hfuel rs) u
+
+/-- **The Spec's departure clauses hold on every run of the model** (and with them the whole of property C07 as the Spec
+decides it on a run that does not crash — `model_never_crashes`).  For every configuration meeting the side conditions
+(`CfgOK`, automatic fuel, `OrdPerm`, and CLIENT_CLOSED is not the ALL_MESSAGE_TYPES sentinel: `default_side_conditions`)
+and every history whose frames are read from connections (`RoundsWF`), the verdict `Spec.runSpec` computes from the history and the model's own events has no
+C07 entry. -/
+theorem spec_departure_clauses_pass_on_model (cfg : Cfg) (ok : CfgOK cfg) (hfuel : cfg.fuel = 0) (hperm : OrdPerm cfg)
+    (hmt : cfg.mtClosed ≠ cfg.allTypes) (rs : List Round) (hwf : RoundsWF rs) :
+    (Spec.runSpec cfg rs (Pyrtma.Drv.Manager.modelRun cfg rs).1 none).errs.filter (·.1 == "C07") = [] :=
+  spec_passes_on_model ok hfuel hperm hmt rs hwf "C07" (by simp [proven]) (fun h => absurd h (by decide))
+
 /-! ### Non-vacuity -/
 /-- connection 2 listens to CLIENT_CLOSED; connection 1 resets: exactly one notice about 1 reaches 2 -/
 def exRounds2 : List Round :=
@@ -198,6 +236,56 @@ def exRounds2 : List Round :=
    { reads := [{ uid := 2, h := { mtype := 15, nbytes := 4 }, avail := 4, pay := [33, 0, 0, 0] }], writable := [1, 2] },
    { reads := [{ uid := 1, hdrErr := true }], writable := [1, 2] }]
 example : nTo (run {} exRounds2).out 2 1 = 1 ∧ nTo (run {} exRounds2).out 2 2 = 0 := by decide
+
+/-- that history meets the hypotheses of `spec_departure_clauses_pass_on_model`, and the Spec has nothing to object to -/
+example : RoundsWF exRounds2 := by
+  intro r hr rd hrd
+  simp only [exRounds2, List.mem_cons, List.not_mem_nil, or_false] at hr
+  rcases hr with rfl | rfl | rfl | rfl <;> simp at hrd <;> subst hrd <;> decide
+example : (Spec.runSpec {} exRounds2 (Pyrtma.Drv.Manager.modelRun {} exRounds2).1 none).errs = [] := by decide +kernel
+
+/-- a write fails: connection 1 listens to type 5000 and is broken when connection 2 publishes it — failed write, close,
+    one CLIENT_CLOSED notice to connection 2 (which listens to CLIENT_CLOSED), all in the segment of that frame -/
+def exRounds3 : List Round :=
+  [{ accept := true }, { accept := true },
+   { reads := [{ uid := 2, h := { k := 1, mtype := 15, nbytes := 4 }, avail := 4, pay := [33, 0, 0, 0] }], writable := [1, 2] },
+   { reads := [{ uid := 1, h := { k := 2, mtype := 15, nbytes := 4 }, avail := 4, pay := [136, 19, 0, 0] }], writable := [1, 2] },
+   { failSet := [(1, some .hdr)], reads := [{ uid := 2, h := { k := 3, mtype := 5000 } }], writable := [1, 2] }]
+example : (modelObs {} exRounds3).getLast? =
+    some [.rd 2, .wfail 1, .close 1, .send 2 2 (closedFrame {} { uid := 1, subs := [5000] })] := by decide +kernel
+example : (Spec.runSpec {} exRounds3 (Pyrtma.Drv.Manager.modelRun {} exRounds3).1 none).errs = [] := by decide +kernel
+
+/-- **The accept branch is routed by the previous poll** (observed behaviour, not a finding).  Log lines of level INFO
+are forwarded; connection 1 listens to them, connection 2 to CLIENT_CLOSED.  The last round both accepts a connection and
+delivers a frame, and connection 2 — not writable at the previous `select` — is writable now.  The INFO line of `accept`
+goes to connection 1, whose socket is broken: it is dropped, and the CLIENT_CLOSED notice about it is *not* written to
+connection 2, because `run()` samples `self.wlist` only after the accept branch: readiness there is the previous poll's.
+The Spec judges the stretch before the first frame read by that set (`Spec.roundBody`), and has nothing to object to. -/
+def exStale : List Round :=
+  [{ accept := true }, { accept := true }, { accept := true },
+   { reads := [{ uid := 1, h := { k := 1, mtype := 15, nbytes := 4 }, avail := 4, pay := [44, 0, 0, 0] }], writable := [1, 2, 3] },
+   { reads := [{ uid := 2, h := { k := 2, mtype := 15, nbytes := 4 }, avail := 4, pay := [33, 0, 0, 0] }], writable := [1, 2, 3] },
+   { reads := [{ uid := 3, h := { k := 3, mtype := 5000 } }], writable := [1, 3] },
+   { accept := true, failSet := [(1, some .hdr)], reads := [{ uid := 3, h := { k := 4, mtype := 5000 } }],
+     writable := [1, 2, 3, 4] }]
+example : (modelObs { logLevel := 20 } exStale).getLast? = some [.wfail 1, .close 1, .rd 3] := by decide +kernel
+example : (Spec.runSpec { logLevel := 20 } exStale (Pyrtma.Drv.Manager.modelRun { logLevel := 20 } exStale).1 none).errs = [] := by
+  decide +kernel
+
+/-- …and the periodic section by the current one.  Connection 1 is a logger that listens to TIMING_MESSAGE, connection 2
+listens to CLIENT_CLOSED and was writable at the previous poll.  The last round accepts a connection and reads nothing
+(so the manager does not poll: nobody is writable), the TIMING report is due and goes to the logger, whose socket is
+broken: it is dropped, and nobody but loggers can be handed the notice.  No frame is read, the whole round is one stretch
+of events: the Spec counts as ready only what is ready by both polls. -/
+def exTick : List Round :=
+  [{ accept := true }, { accept := true }, { accept := true },
+   { reads := [{ uid := 1, h := { k := 1, mtype := 4, nbytes := 44 }, avail := 44,
+                 pay := [1, 0, 0, 0, 0, 0, 11, 0, 7, 0, 0, 0] }], writable := [1, 2, 3] },
+   { reads := [{ uid := 1, h := { k := 2, mtype := 15, nbytes := 4 }, avail := 4, pay := [80, 0, 0, 0] }], writable := [1, 2, 3] },
+   { reads := [{ uid := 2, h := { k := 3, mtype := 15, nbytes := 4 }, avail := 4, pay := [33, 0, 0, 0] }], writable := [1, 2, 3] },
+   { accept := true, dt := 2000, failSet := [(1, some .hdr)], writable := [1, 2, 3, 4] }]
+example : (modelObs {} exTick).getLast? = some [.wfail 1, .close 1] := by decide +kernel
+example : (Spec.runSpec {} exTick (Pyrtma.Drv.Manager.modelRun {} exTick).1 none).errs = [] := by decide +kernel
 
 /-- a history in which connection 1 is accepted, resets while its header is read, and connection 2 lives on -/
 def exRounds : List Round :=
